@@ -188,6 +188,60 @@ CLAIMED["C19"] = dict(
     design="6/C19",
 )
 
+INTERP_NOTE = ("Component-level semantics (what each function answers) is tied by differential comparison of the Lean interpreter model "
+               "(Model/Interp.lean: headers, terms, variables, ==, ->, assignments with qualifiers, ~70 functions) with the real "
+               "matcher on generated programs and files, and by the executable reference semantics harness/spec_eval.py judged "
+               "against the real run; the theorems cover the run loop and the top-level combination of components, not each "
+               "function body. Programs outside the model's class (look-ahead qualifiers onmatch/onchange/once, aliasing of mutable "
+               "values, RecursionError, functions not modelled) are run and counted as unmodelled, never judged.")
+CLAIMED["C01"] = dict(
+    text="Lean theorems (Props/C01.lean): for every matcher (hence every csvpath) collect() returns exactly the records the matcher "
+         "accepted among the offered ones, each once, in file order (c01_runloop); for the interpreter model, on every line free of "
+         "stop/skip effects the line verdict is the AND (OR in OR mode) of the component votes evaluated left to right, each in the "
+         "state left by its predecessors (c01_toplevel). Tie: suite `interp` runs generated programs through the real code and the "
+         "Lean interpreter+run loop (lines, variables, flags, counters, printouts) and judges the real run against the documented "
+         "meaning (spec_eval) — model-vs-code breaks and spec violations are reported separately.",
+    note=INTERP_NOTE,
+    technique="Lean 4 proof (run-loop invariant; induction over the component list) + interpreter-model correspondence + reference-semantics oracle",
+    design="6/C01",
+)
+CLAIMED["C03"] = dict(
+    text="Lean theorems (Props/C03.lean): for every matcher and file scan_count equals the number of offered records and match_count "
+         "the number of matched ones (under the matcher contract CountsOK), the context shown to the matcher on each offered record "
+         "carries the 1-based scan number, the match count so far and the 0-based line number, and each component is evaluated in the "
+         "state produced by the effects of the earlier components of the same line (c03_sameline). Tie: suite `interp` with "
+         "variable-writing programs (assignments with tracking values, push/pop/stack, counter, count family, per-line stacks of "
+         "count_lines/line_number/count_scans/count) compared with the Lean interpreter and with the reference semantics after the run.",
+    note=INTERP_NOTE + " tally/sum/subtotal/every/first bookkeeping is compared model-vs-code where the model has the function and otherwise "
+         "only judged by the oracle when spec_eval defines it.",
+    technique="Lean 4 proof (run-loop counting invariants, component sequencing) + interpreter-model correspondence + reference-semantics oracle",
+    design="6/C03",
+)
+CLAIMED["C04"] = dict(
+    text="Lean theorems (Props/C04.lean): on every line the verdict after the line is the verdict before AND no executed effect of the "
+         "line invalidates (c04_line: only an executed fail/fail_and_stop/error-with-fail effect can clear it, and nothing sets it); "
+         "over a whole run, for every file and program of the interpreter model and for every matcher that never resets the flag, the "
+         "verdict never returns to True (c04_run_monotone, c04_loop_never_writes); the manifest's all_valid is the conjunction of the "
+         "members' verdicts (c04_aggregate). Tie: suite `interp` with conditional fail()/fail_and_stop()/failed()/valid() and "
+         "error-provoking components under all policies, and suite `validity` for results_manager.is_valid and the manifest of real "
+         "named-paths runs.",
+    note=INTERP_NOTE + " Known finding result-valid-needs-start (no-run member) is listed in known-findings.txt.",
+    technique="Lean 4 proof (effect-list invariant, monotonicity by induction over records) + correspondence + oracle",
+    design="6/C04",
+)
+CLAIMED["C13"] = dict(
+    text="Lean theorems (Props/C13.lean): an advancing record is scanned but not matched, leaves the matcher state, match count and "
+         "validity unchanged and decrements the advance (c13_advance); a file ending in a blank record still calls the matcher once, "
+         "frozen, returning no line (c13_last_blank); once the stop flag is set after a record no later record is read "
+         "(c13_stop_ends_run); inside a line no component after a fired stop()/skip() is evaluated, a skipped line is not matched "
+         "and skip is cleared for the next line (c13_stop_cut, c13_skip_cut). Tie: suite `interp` with conditional "
+         "stop/skip/advance/last among side-effecting components over files with interior/trailing blanks and scan windows, compared "
+         "with the Lean model and judged by the reference semantics (absence of later effects).",
+    note=INTERP_NOTE,
+    technique="Lean 4 proof (case analysis of the run-loop step and the component loop) + correspondence + oracle",
+    design="6/C13",
+)
+
 NOT_YET = "check not built yet in this revision (planned: see DESIGN.md section 6); not claimed until its theorem and correspondence suite exist"
 
 
